@@ -36,7 +36,7 @@ def jobs(tier):
 def sys_jobs(hs, tier):
     sj = [wmmlib.sys_job(hs, "sysbb", 0, 1, "l1,l2,l3,l4,l5"), wmmlib.sys_job(hs, "sysbb", 0, 2, "l1,l2,l3,l4"), wmmlib.sys_job(hs, "sys", 0, 1, "l1,l2,l3,l4,l5,l6,l7,l8,l9,l10")]
     if tier != "quick":
-        sj += [wmmlib.sys_job(hs, "sysbb", 0, 2, "l1,l2,l3,l4,l5,l6,l7", deadline=1500), wmmlib.sys_job(hs, "sysbb", 1, 1, "l1,l2,l3,l4", "l1,l2,l3,l4", deadline=1500)]
+        sj += [wmmlib.sys_job(hs, "sysbb", 0, 2, "l1,l2,l3,l4,l5,l6,l7", deadline=1500), wmmlib.sys_job(hs, "sysbb", 1, 1, "l1,l2,l3,l4", "l1,l2", deadline=1500)]
     return sj
 
 
